@@ -1,6 +1,6 @@
 (* C10 — Gradient-based optimizers report consistent solutions and make progress.
    Only statements + `exact`; proofs live in C10Proofs.v, C10LsProofs.v, C10BfgsProofs.v, C10LbfgsProofs.v, C10LbfgsBoxProofs.v,
-   C10AdamRpropProofs.v, C10CgProofs.v, the executable model in C10Model.v, C10LsModel.v and - written once over an abstract
+   C10LbfgsDescentProofs.v, C10AdamRpropProofs.v, C10CgProofs.v, the executable model in C10Model.v, C10LsModel.v and - written once over an abstract
    number type (C10Gen.v, C10AdamRprop.v) and instantiated with the exact rationals - C10LbfgsModel.v, C10AdamRprop.v.
 
    PROPERTY (properties.jsonl): after init and after every step the reported best value equals the objective
@@ -71,7 +71,7 @@
          C10_linesearch_monotone_partial is gone for BFGS.  (Exact arithmetic: in floating point y's >= 1e-20 does not
          protect against loss of definiteness by rounding; monitored.)
 
-   Part 4: L-BFGS (LBFGS.cpp; C10Gen.v / C10LbfgsModel.v; C10LbfgsProofs.v, C10LbfgsBoxProofs.v):
+   Part 4: L-BFGS (LBFGS.cpp; C10Gen.v / C10LbfgsModel.v; C10LbfgsProofs.v, C10LbfgsBoxProofs.v, C10LbfgsDescentProofs.v):
      * C10_lbfgs_history_skip_rule / _store_rule   updateHist as coded: a pair is stored iff y's > m_updThres (1e-10), the OLDEST
          pair is dropped iff the history already holds m_numHist pairs, m_bdiag := y'y / y's.
      * C10_lbfgs_two_loop_is_matrix / _entries   multBInv (the two loops over the arrays, as coded) computes H x for H = lb_H =
@@ -88,9 +88,9 @@
          x + d stays in the box widened by the 1e-13 slack of isFeasible (all three branches; no relation between lower
          and upper needed).  C10_lbfgs_box_feasible: every iterate of box-constrained L-BFGS is feasible;
          C10_lbfgs_box_internal_check_holds: the run-time check "internal error" never fires (exact arithmetic).
-         NOT PROVED: that the box direction is a descent direction or zero (it is: -p0'H p0 in the full-step branch, a
-         non-negative multiple of -|p0|^2 / p0'B p0 in the Cauchy branch, a convex combination in the dog-leg branch - needs
-         multB = inverse of multBInv / positive definiteness of the compact representation; monitored on every replayed step).
+     * C10_lbfgs_mult_b_positive_definite (multB as coded, the cancelled sqrt aside, is a symmetric positive definite form),
+         C10_lbfgs_box_direction_nonascent (g'd <= 0 in all three branches, every input), C10_lbfgs_box_monotone (every step
+         of box-constrained L-BFGS is monotone).  NOT PROVED: the strict version "g'd < 0 or d = 0" (monitored as g'd <= 0).
      * C10_lbfgs_saverestore_continues + C10_lbfgs_threshold_constant   the archived list (base + m_numHist, m_bdiag, m_steps,
          m_gradientDifferences) is complete for every instance whose m_updThres equals the saved one; initModel sets it to
          the constant 1e-10, so every init-ed instance qualifies.  m_updThres itself is NOT archived:
@@ -172,15 +172,14 @@
    descent direction and a differentiable objective was found; BFGS and L-BFGS never pass an ascent direction
    (C10_bfgs_direction_descent, C10_lbfgs_direction_descent).  Such calls are counted (nonfinite) and not compared.
    NOT COVERED: convergence proofs; the numerics of the interpolation / Brent / golden-section steps (that the oracle's
-   proposals are the ones the formulas give; that wolfecubic's result satisfies the Wolfe conditions); descent of the
-   box-constrained L-BFGS direction (monitored); rounding: every theorem is about exact rationals (floating point can lose
+   proposals are the ones the formulas give; that wolfecubic's result satisfies the Wolfe conditions); rounding: every theorem is about exact rationals (floating point can lose
    y's > 0, positive definiteness, positivity of a step size after ~1075 halvings, and can put x + alpha c one ulp outside
    the bound - inside the 1e-13 slack); Adam's setters accept beta >= 1 (bias correction 1 - beta^t <= 0: division by zero /
    sqrt of a negative number) - outside the generated configurations; TrustRegionNewton, which is
    abstract in this tree (its init takes a non-const objective and does not override the pure virtual init): no
    object exists to check. *)
 From Coq Require Import List QArith Qreduction Qabs Bool Arith.
-From SharkV Require Import C10Model C10Proofs C10LsModel C10LsProofs C10BfgsProofs C10Gen C10LbfgsModel C10LbfgsProofs C10LbfgsBoxProofs C10AdamRprop C10AdamRpropProofs C10CgProofs.
+From SharkV Require Import C10Model C10Proofs C10LsModel C10LsProofs C10BfgsProofs C10Gen C10LbfgsModel C10LbfgsProofs C10LbfgsBoxProofs C10LbfgsDescentProofs C10AdamRprop C10AdamRpropProofs C10CgProofs.
 Import ListNotations.
 Open Scope Q_scope.
 
@@ -604,6 +603,37 @@ Theorem C10_lbfgs_box_internal_check_holds :
     box_feasb_slack box_eps l u (vadd (pt s) (vscale 1 (sdir s))) = true.
 Proof. exact lbfgs_box_internal_check_holds. Qed.
 Print Assumptions C10_lbfgs_box_internal_check_holds.
+
+(* multB as coded (compact representation; the square root of the row normalisation cancels): x'(B x) >= 0, > 0 for x <> 0 *)
+Theorem C10_lbfgs_mult_b_positive_definite :
+  forall (n : nat) (bdiag : Q) (ps : list (vec * vec)) (x : vec),
+    0 < bdiag -> Forall (fun p => length (fst p) = n /\ length (snd p) = n /\ 0 < dot (snd p) (fst p)) ps -> length x = n ->
+    0 <= dot x (lb_mult_b bdiag ps x) /\ (~ vzero x -> 0 < dot x (lb_mult_b bdiag ps x)).
+Proof. exact mult_b_posdef. Qed.
+Print Assumptions C10_lbfgs_mult_b_positive_definite.
+
+(* the direction of getBoxConstrainedDirection is NEVER AN ASCENT direction: g'd <= 0 in the full-step branch (-p0'H p0), in
+   the Cauchy branch (-alpha |p0|^2 / p0'B p0, alpha >= 0) and in the dog-leg branch (convex combination), every input *)
+Theorem C10_lbfgs_box_direction_nonascent :
+  forall (n : nat) (bdiag : Q) (ps : list (vec * vec)) (l u x g : vec),
+    0 < bdiag -> Forall (fun p => length (fst p) = n /\ length (snd p) = n /\ 0 < dot (snd p) (fst p)) ps ->
+    length x = n -> length g = n -> length l = n -> length u = n ->
+    dot g (lb_box_dir bdiag ps l u x g) <= 0.
+Proof. exact lb_box_dir_nonascent. Qed.
+Print Assumptions C10_lbfgs_box_direction_nonascent.
+
+(* hence every step of box-constrained L-BFGS is monotone: C10_linesearch_monotone_partial without its hypothesis *)
+Theorem C10_lbfgs_box_monotone :
+  forall (f : vec -> Q) (grad : vec -> vec) (l u : vec) (n numhist : nat),
+    (forall x, length x = n -> length (grad x) = n) -> length l = n -> length u = n ->
+    forall (lstype : nat) (x0 : vec) (k : nat), length x0 = n ->
+    let s := ls_run f grad lb_model (lbfgs_dir_box l u) k
+               (ls_init f grad (box_feasb_slack box_eps l u) lb_model (lb_init_model numhist) lstype x0) in
+    dot (der s) (sdir s) <= 0 /\
+    val (ls_step f grad lb_model (lbfgs_dir_box l u) s) <= val s /\
+    f (pt (ls_step f grad lb_model (lbfgs_dir_box l u) s)) <= f (pt s).
+Proof. exact lbfgs_box_monotone. Qed.
+Print Assumptions C10_lbfgs_box_monotone.
 
 (* ====================================================================================================
    Adam (Adam.h) and Rprop (Rprop.h / Rprop.cpp): models C10AdamRprop.v (generic, rational instance), proofs
